@@ -2,6 +2,7 @@ import A2Verif.Model.Hex
 import A2Verif.Model.Packing
 import A2Verif.Model.PackText
 import A2Verif.Model.PackRec
+import A2Verif.Model.PackFs
 /-! driver family `c13`: evaluates the packing model on the requests written by `harness/src/fam/c13.rs`
 and renders the answer exactly as the harness renders what the real code did. -/
 namespace A2Verif.Drv.C13
@@ -35,8 +36,14 @@ def parseFs : String → Option Fs
   | "dos" => some .dos | "prodos" => some .prodos | "pascal" => some .pascal
   | "cpm" => some .cpm | "fat" => some .fat | _ => none
 
-def parseVariant (s : String) : Option Variant :=
+/-- fourth (optional) letter of the variant word: the Pascal text decoder (`p` panicking, `s` saturating) -/
+def parsePas (s : String) : PasIndent :=
   match s.toList with
+  | [_, _, _, 's'] => .saturating
+  | _ => .panicking
+
+def parseVariant (s : String) : Option Variant :=
+  match s.toList.take 3 with
   | [a, b, c] =>
     match (if a = 'w' then some DosLen.wrapping else if a = 'c' then some DosLen.checked else none),
           (if b = 'w' then some EofLen.wrapping else if b = 'c' then some EofLen.checked else none),
@@ -133,8 +140,45 @@ def parseTree (s : String) : Option J :=
 def fullDigest (f : FImg) : String :=
   s!"ver={toHex f.fimgVersion} fs={toHex f.fileSystem} cl={f.chunkLen} {imgDigest f} accd={toHex f.accessed} cr={toHex f.created} md={toHex f.modified} vs={toHex f.version} mv={toHex f.minVersion} path={toHex f.fullPath}"
 
+def renderAuto : Res Unpacked → String
+  | .ok (.binary b) => s!"B:{digest b}"
+  | .ok (.text t) => s!"T:{digest t}"
+  | .ok (.records m) => s!"R:{renderPairs m}"
+  | .err => "err"
+  | .panic => "panic"
+
+/-- everything the real code can be asked about an image that came back from a file system -/
+def renderReturned (gv : RecGather) (pv : PasIndent) (fs : Fs) (h : FImg) (trunc : Bool) : String :=
+  s!"ok {imgDigest h} la={loadAddrV fs h} bin={resBytes (unpackBinV fs h)} tok={resBytes (unpackTokV fs h)} txt={resBytes (unpackTxtV pv fs h)} raw={resBytes (unpackRawV fs h trunc)} auto={renderAuto (unpackAuto gv pv fs h)}"
+
 def handle (toks : List String) : String :=
   match toks with
+  | ["ret", fs, var, chunk, init, kind, data, a1, a2, tbits, tset, pad, round, acc, trunc, gv] =>
+    -- pack (kind ∈ bin tok raw txt), decorate as the file system does, then every unpacker
+    match parseFs fs, parseVariant var, chunk.toNat?, parseData data, ofHex tbits, parseData pad, round.toNat? with
+    | some fs, some v, some n, some d, some tb, some pd, some rd =>
+      match ofHex acc, trunc.toNat?, (if gv == "s" then some RecGather.strict else if gv == "z" then some RecGather.zeroFill else none),
+            parseInit fs n init with
+      | some ac, some tr, some gv, some f =>
+        if hangs f then "hang" else
+        let packed : Option (Res FImg) :=
+          match kind with
+          | "bin" => (match parseAddr a1, ofHex a2 with | some a, some t => some (packBin v fs f d a t) | _, _ => none)
+          | "tok" => (match parseLang a1, ofHex a2 with | some l, some t => some (packTok v fs f d l t) | _, _ => none)
+          | "raw" => some (packRaw v fs f d)
+          | "txt" => some (packTxt v fs f d)
+          | _ => none
+        match packed with
+        | some (.ok g) =>
+          let dc : Deco := { typeBits := tb, typeSet := (if tset == "=" then none else ofHex tset), pad := pd, eofRound := rd, access := ac, version := g.version,
+                             minVersion := g.minVersion, created := g.created, modified := g.modified,
+                             accessed := g.accessed, fullPath := g.fullPath }
+          renderReturned gv (parsePas var) fs (decorate fs dc g) (tr != 0)
+        | some .err => "err"
+        | some .panic => "panic"
+        | none => "bad-request"
+      | _, _, _, _ => "bad-request"
+    | _, _, _, _, _, _, _ => "bad-request"
   | ["newfimg", fs] =>
     match parseFs fs with
     | some fs => let f := newFimg fs 256 []; s!"fs={toHex f.fileSystem} eof={toHex f.eof} aux={toHex f.aux}"
@@ -182,7 +226,7 @@ def handle (toks : List String) : String :=
       | some f =>
         if hangs f then "hang" else
         match packTxt v fs f t with
-        | .ok g => s!"ok {imgDigest g} un={resBytes (unpackTxt fs g)}"
+        | .ok g => s!"ok {imgDigest g} un={resBytes (unpackTxtP (parsePas var) fs g)}"
         | .err => "err"
         | .panic => "panic"
       | none => "bad-request"
@@ -197,13 +241,15 @@ def handle (toks : List String) : String :=
         | .cpm | .fat => (match cpmFromUtf8 tm t with | some b => .ok b | none => .err)
       resBytes r
     | _, _, _ => "bad-request"
-  | ["toutf8", fs, src] =>
+  | "toutf8" :: fs :: src :: pvs =>
     match parseFs fs, ofHex src with
     | some fs, some b =>
       let r : Res Bytes := match fs with
         | .dos => .ok (dosToUtf8 b)
         | .prodos => .ok (prodosToUtf8 b)
-        | .pascal => (match pasToUtf8 b with | some x => .ok x | none => .panic)
+        | .pascal =>
+          if pvs == ["s"] then .ok (pasToLoopSat false b)
+          else (match pasToUtf8 b with | some x => .ok x | none => .panic)
         | .cpm | .fat => .ok (cpmToUtf8 b)
       resBytes r
     | _, _ => "bad-request"
@@ -233,7 +279,7 @@ def handle (toks : List String) : String :=
       | none => "bad-request"
     | _, _, _, _, _, _ => "bad-request"
   | "reuse" :: fs :: var :: chunk :: init :: kind :: args =>
-    match parseFs fs, parseVariant var, chunk.toNat?, (if var.length == 3 then some () else none) with
+    match parseFs fs, parseVariant var, chunk.toNat?, (if var.length == 3 || var.length == 4 then some () else none) with
     | some fs, some v, some n, some _ =>
       match parseInit fs n init with
       | some f =>
@@ -261,7 +307,7 @@ def handle (toks : List String) : String :=
           match ofHex ta, ofHex tb with
           | some ta, some tb =>
             match packTxt v fs f ta with
-            | .ok g1 => fin (packTxt v fs g1 tb) (fun g => s!"ok {imgDigest g} un={resBytes (unpackTxt fs g)}")
+            | .ok g1 => fin (packTxt v fs g1 tb) (fun g => s!"ok {imgDigest g} un={resBytes (unpackTxtP (parsePas var) fs g)}")
             | _ => "errA"
           | _, _ => "bad-request"
         | "tok", [l, da, db] =>
